@@ -156,6 +156,24 @@ Proof.
 Qed.
 Print Assumptions C04_no_foreign_tx.
 
+(** The HTLC signatures of phase 2 bind in the same way, under the tweaked HTLC key: the j-th
+    signature verifies against the BIP143 digest of the j-th HTLC transaction of the canonical
+    commitment (witness script and amount of the output it spends) and against no other digest. *)
+Theorem C04_htlc_sigs_bind :
+  forall (sha rip : bytes -> bytes) (s : setup) (k : ckeys)
+         (SK SIG : Type) (sign : SK -> bytes -> SIG) (funding_key htlc_key : SK) (value_ok : bool)
+         (accept : content -> bool)
+         (PK : Type) (verify : PK -> bytes -> SIG -> bool) (htlc_pub : PK),
+    (forall m, verify htlc_pub m (sign htlc_key m) = true) ->
+    (forall m m', verify htlc_pub m' (sign htlc_key m) = true -> m' = m) ->
+    forall c sig hs,
+      sign_phase2 sha rip s k SK SIG sign funding_key htlc_key value_ok accept c = Ok (sig, hs) ->
+      exists hts, htlc_txs sha rip s k c = Some hts
+        /\ Forall2 (fun sg x => verify htlc_pub (htlc_sighash sha s x) sg = true
+                                /\ forall m, verify htlc_pub m sg = true -> m = htlc_sighash sha s x) hs hts.
+Proof. intros. eapply htlc_sigs_bind; eassumption. Qed.
+Print Assumptions C04_htlc_sigs_bind.
+
 (** * Non-vacuity: a zero-fee-anchors commitment with three offered HTLCs (two of them identical)
       and no to_remote output, taken from a run of the harness (keys derived there with
       libsecp256k1).  Every premise of [C04_entry_points_agree_sha256] holds, phase 2 signs the
